@@ -82,9 +82,12 @@ def oracle_poly(ctx, c, r):
                 scale = sum(abs(Fraction(co)) * (abs(Fraction(t)) + abs(shift) + 2) ** kk for kk, co in enumerate(c.coef))
                 tol = 0 if c.stream == "exact" else Fraction(32, 2 ** 24) * max(scale, 1)
                 if isinstance(got, str) or abs(got - exp) > tol:
+                    # the table row itself may have lost stencil points: updateSM drops every point whose TABLE index
+                    # jd + j - c leaves [0,n) (the open finding recorded under C01), although the cell it would read is inside
+                    out_of_table = not (0 <= jd - cen and jd + it - 1 - cen < n)
                     ctx.violation("impl-oracle", "polynomial of degree %d not reproduced by the %d-point scheme" % (len(c.coef) - 1, it),
                                   case=dict(c.replay(), coef=c.coef), observed=dict(b=b, row=k, cell=t, value=str(got)),
-                                  expected=str(exp), sig=dict(kind="kick", clause="poly", it=it, multibunch=nb > 1, dir=c.dir))
+                                  expected=str(exp), sig=dict(kind="kick", clause="poly", stencil_out_of_table_range=out_of_table))
                     return False
     ctx.case_done(("poly", c.cid), len(c.coef) > 1 and f != 0)
     return ok
